@@ -7,6 +7,9 @@ CLAIMED = {
                 note='pyvc (the AST symbolic interpreter) and its library models (struct, six, attrs, datetime) are trusted, as are z3 unsat answers; NATIVE byte order is taken as little-endian; see evidence assumptions.',
                 technique='contract-based deductive verification: sidecar specification functions + loop contracts on the real source, VCs generated from the AST at every run, discharged by z3'),
 }
+CLAIMED['C17'] = dict(ref='5.17', text='The real __lt__/__eq__ and the interpreted functools.total_ordering derivations are explored on symbolic members ranging over the whole installed TlsVersion table; trichotomy, transitivity over triples, hash consistency, consistency of <=,>,>= and the stated chain are discharged by z3 for every pair/triple at once.',
+                note='TlsVersion table taken as installed; attrs hash assumed to be a function of the member; pyvc and z3 trusted.',
+                technique='contract-based deductive verification: order axioms as postconditions over symbolic enum members, real source interpreted, z3')
 PENDING = {}
 NA = {
     'C18': 'relational property over RFC text grammars; every code path is ParserText scanning loops, attrs reflection in FieldValueMultiple, dateutil/urllib3/json: no contract within reach of the installed SMT back ends expresses or decides it (DESIGN.md 5.18)',
